@@ -37,6 +37,17 @@ def _mujoco_enum(full):
     return _MJ_ENUM[full]
 
 
+def _own_body_nodes(fnode):
+    """Nodes of a function body, not descending into nested function / class definitions."""
+    stack = [x for x in fnode.body if not isinstance(x, (ast.FunctionDef, ast.AsyncFunctionDef, ast.ClassDef))]
+    while stack:
+        n = stack.pop()
+        yield n
+        for c in ast.iter_child_nodes(n):
+            if not isinstance(c, (ast.FunctionDef, ast.AsyncFunctionDef, ast.Lambda, ast.ClassDef)):
+                stack.append(c)
+
+
 class OutOfFragment(AnalysisError):
     pass
 OPAQUE_DIV = [False]
@@ -1263,6 +1274,14 @@ class Interp:
             return '<fstr>'
         if t is ast.Starred:
             return self.ev(n.value, env, mod)
+        if t is ast.Yield:
+            e = env
+            while e is not None and '__yield__' not in e['v']:
+                e = e['p']
+            if e is None:
+                raise OutOfFragment('yield outside an interpreted generator')
+            e['v']['__yield__'].append(self.ev(n.value, env, mod) if n.value is not None else None)
+            return None
         raise OutOfFragment('expr %s' % t.__name__)
 
     def comp(self, n, env, mod):
@@ -1694,6 +1713,26 @@ class Interp:
                 if 0 <= i < num:
                     out[i] = out[i] + data[k]
             return out
+        if name.split('.')[0] in ('itertools', 'operator', 'collections', 'bisect', 'heapq') or name in (
+                'functools.reduce', 'math.floor', 'math.ceil', 'math.gcd', 'math.comb', 'math.factorial', 'math.isqrt'):
+            # pure standard-library helpers on host-side (static) data: call the real function; callables of the
+            # analysed program are wrapped so that they are still interpreted
+            import importlib, types
+            modn, _, attr = name.rpartition('.')
+            try:
+                f_ = getattr(importlib.import_module(modn), attr)
+            except Exception:  # pylint: disable=broad-except
+                raise OutOfFragment('unmodelled extern %s' % name)
+            def wrap(a):
+                if isinstance(a, (Closure, Partial, Vmapped)) or (isinstance(a, tuple) and a and a[0] in ('prim', 'builtin', 'bound', 'pybound')):
+                    return lambda *x, **k: self.apply(a, list(x), k)
+                if isinstance(a, Rat) and a.is_const() and a.constval() == int(a.constval()):
+                    return int(a.constval())
+                return a
+            r = f_(*[wrap(a) for a in args], **{k: wrap(v) for k, v in kw.items()})
+            if isinstance(r, (types.GeneratorType, map, filter, zip)) or type(r).__module__ == 'itertools':
+                r = list(r)
+            return r
         raise OutOfFragment('unmodelled extern %s' % name)
 
     def scan(self, f, init, xs, length=None, reverse=False, **kw):
@@ -2009,11 +2048,15 @@ class Interp:
             if isinstance(node, ast.Lambda):
                 return self.ev(node.body, env, c.mod)
             # decorators: @jax.vmap on nested def handled at def time
+            is_gen = any(isinstance(x, (ast.Yield, ast.YieldFrom)) for x in _own_body_nodes(node))
+            if is_gen:
+                # a (finite, host-side) generator is run to exhaustion; its value is the list of yielded values
+                env['v']['__yield__'] = []
             try:
                 self.block(node.body, env, c.mod)
             except Ret as r:
-                return r.v
-            return None
+                return env['v']['__yield__'] if is_gen else r.v
+            return env['v']['__yield__'] if is_gen else None
         finally:
             self.depth -= 1
 
